@@ -167,7 +167,7 @@ func NodeOf(v any) *sbom.Node {
 		case "str":
 			fv.SetString(asStr(val))
 		case "strs":
-			var l []string
+			l := []string{} // a list that is written out, even empty, is an allocated one
 			for _, s := range asList(val) {
 				l = append(l, asStr(s))
 			}
@@ -186,13 +186,13 @@ func NodeOf(v any) *sbom.Node {
 			l := asList(val)
 			fv.Set(reflect.ValueOf(&timestamppb.Timestamp{Seconds: asInt(l[0]), Nanos: int32(asInt(l[1]))}))
 		case "persons":
-			var l []*sbom.Person
+			l := []*sbom.Person{}
 			for _, p := range asList(val) {
 				l = append(l, PersonOf(p))
 			}
 			fv.Set(reflect.ValueOf(l))
 		case "refs":
-			var l []*sbom.ExternalReference
+			l := []*sbom.ExternalReference{}
 			for _, p := range asList(val) {
 				l = append(l, RefOf(p))
 			}
